@@ -50,6 +50,8 @@ CLASS_TEXT = {
     "c": "a string constant containing a bare CR is copied into a Rust string literal",
     "d": "the identifiers Self/self/crate/super/_ are emitted as invalid raw identifiers",
     "e": "field or variant id 4294967295 (or 4294967294 followed by the fallback) makes the derive macros panic with 'attempt to add with overflow' in builds with overflow checks (dev profile)",
+    "f": "a newtype (tuple struct) or const shares its name with a struct field or with the snake-case form of a payload variant of the same schema: the derive macros' local bindings of that name are rejected (E0530 cannot shadow tuple structs / constants)",
+    "impl": "a generated type lacks a trait impl the code generator derives for it by its own rules (key newtype: PartialEq/Eq/PartialOrd/Ord/Hash/PrimaryKeyTag; struct without required fields and newtype resolving to one: Default; #[rust(impl_*)] options)",
     "other": "generated code does not compile",
     "codegen": "the code generator fails on an error-free schema",
 }
@@ -171,13 +173,21 @@ def group_errors(errs):
 def module_class(errors):
     """the most specific known class among a module's errors; follow-up errors of a known class
     (derive macros choking on the malformed item) do not make it `other`"""
-    found = []
+    found, impl, rest = [], [], []
     for e in errors:
         c, key = cc.classify(e)
-        if c != "other":
+        if c == "impl":
+            impl.append((c, key, e))
+        elif c != "other":
             found.append((c, key, e))
+        else:
+            rest.append(e)
     if found:
         return found[0]
+    if rest:
+        return ("other", None, rest[0])
+    if impl:
+        return impl[0]
     return ("other", None, errors[0])
 
 
@@ -190,7 +200,9 @@ def isolate(o, crate, variant, name):
     iso = cc.Crate("crate_iso", crate.schema_dir)
     iso.remove()
     iso.by_name = crate.by_name
-    iso.generate(variant, list(schema_closure(crate.by_name, s)))
+    closure = schema_closure(crate.by_name, s)
+    iso.expect = {k: v for k, v in crate.expect.items() if k.split(".", 1)[0] in closure}
+    iso.generate(variant, list(closure))
     iso.write(False)
     ok, errs, _ = iso.build()
     iso.remove()
@@ -200,7 +212,7 @@ def isolate(o, crate, variant, name):
 
 def build_until_clean(o, crate, with_runner, what, max_rounds=6):
     """build; drop failing modules (and, for the runner, their types) and rebuild until the rest
-    compiles.  Modules failing for a known reason (classes a-e) are dropped first: their errors
+    compiles.  Modules failing for a known reason (classes a-f) are dropped first: their errors
     can cascade into sibling modules.  A module failing for another reason is confirmed by
     compiling it alone.  Returns {(variant, schema): [errors]} of everything that failed."""
     failed = {}
@@ -222,11 +234,16 @@ def build_until_clean(o, crate, with_runner, what, max_rounds=6):
         if known:
             drop = known
         else:
+            # one isolated build per schema (its first failing variant): the variants are the same
+            # generated code, and a seeded defect can make many schemas fail at once
             drop = {}
-            for (variant, name), es in by_mod.items():
-                still, mine = isolate(o, crate, variant, name)
+            verdict = {}
+            for (variant, name), es in sorted(by_mod.items()):
+                if name not in verdict:
+                    verdict[name] = (variant,) + isolate(o, crate, variant, name)
+                v0, still, mine = verdict[name]
                 if still:
-                    drop[(variant, name)] = mine or es
+                    drop[(variant, name)] = (mine if variant == v0 else None) or es
                 else:
                     cascades += 1
             if not drop:
@@ -328,8 +345,10 @@ def compile_part(o, tier, seed, stats):
         for d in s.defs:
             ndefs[d.kind] = ndefs.get(d.kind, 0) + 1
     stats.update({"main_schemas": len(main), "pair_schemas": 2 * len(pairs), "second_stream_schemas": len(second),
-                  "main_definitions": ndefs,
-                  "second_stream_labels": {l: sum(1 for s in second if s.label == l) for l in "abcde"}})
+                  "main_definitions": ndefs, "cross_schema_layer": g.xstats,
+                  "main_imports": {"schemas_importing": sum(1 for s in main if s.imports),
+                                   "import_edges": sum(len(s.imports) for s in main)},
+                  "second_stream_labels": {l: sum(1 for s in second if s.label == l) for l in "abcdef"}})
 
     # ---- second stream: expected to fail on the unchanged tree, each schema for one reason
     b = assemble("crate_b", sd, second, lambda s: ["intro", "mac"], by_name)
@@ -378,6 +397,9 @@ def compile_part(o, tier, seed, stats):
                          "class": "codegen", "output": out})
         table = gen.Table(batch_all)
         lines = []
+        for s in batch_all:
+            a.expect.update(table.expected_impls(s))
+        stats["impl_assertions"] = stats.get("impl_assertions", 0) + sum(len(v) for v in a.expect.values())
         for i, s in enumerate(batch_all):
             avail = [v for v in variants_for(s) if s.name in a.modules.get(v, [])]
             for l in table.lines(s):
@@ -417,7 +439,7 @@ def bisect_definitions(o, sd, failed, by_name, stats):
     (with the definitions it needs), all compiled in one crate"""
     names = sorted({n for (v, n) in failed if not all(e.get("dependent") for e in failed[(v, n)])})
     minis = []
-    for n in names[:6]:
+    for n in names[:3]:
         minis += single_definition_schemas(by_name[n], "z%s_" % n)
     if not minis:
         return
@@ -558,8 +580,13 @@ def wire_part(o, tier, seed, built, stats):
         "evaluations": compared,
         "distinct_nontrivial": tot.get("distinct_nontrivial", 0),
         "samples": samples[:6],
-        "input_distribution": {k: tot.get(k) for k in ("inputs", "result_classes", "streams", "types_total",
-                                                        "types_exercised", "types_uninhabited", "pairs")},
+        "input_distribution": dict(
+            {k: tot.get(k) for k in ("inputs", "result_classes", "streams", "types_total", "types_exercised",
+                                     "types_uninhabited", "pairs")},
+            schema_corpus="types come from the compiled corpus: main stream (random grammar body + cross-schema layer: "
+                          "newtype chains over imported schemas, impl_* towers, recursion knots, imported array lengths; "
+                          "counts in compile_check.cross_schema_layer) and old/new pairs; types_total counts every "
+                          "generated struct/enum/newtype once per shard"),
         "monitor_classes": tot.get("monitor_classes"),
         "monitor_failures": len(mon_lines),
         "disagreements": ndiff,
@@ -613,7 +640,22 @@ def run(tier, seed):
         "struct/enum/newtype of the compiled corpus (every type in turn): conforming Values with unknown field ids added, "
         "seven systematic mutations (drop a required field, retype, unwrap an optional, unknown variant, payload on a unit "
         "variant, array length, extra Some) labelled by the specification, byte-level mutations (no expectation), and "
-        "old/new schema pairs; each in encoding 1 (counted containers, harness Legacy) or encoding 2")
+        "old/new schema pairs; each in encoding 1 (counted containers, harness Legacy) or encoding 2. "
+        "Compile clause (compile_check): every main-stream schema is a random body of the whole grammar plus a systematic "
+        "cross-schema layer: three newtype chains per schema with 1..4 links (length from a deck) spread over the schema and "
+        "up to two partner schemas by L/X hop strings (L: next link is a local name of the same schema, X: `q::Name` in a schema "
+        "that is imported - directly, through an imported schema's own import, or mutually inside cells of 4 schemas), ending "
+        "alternately in every key built-in (deck over u8..i64, string, uuid) and in 21 non-key ends (deck: bool, floats, bytes, "
+        "value, ids, lifetime, unit, vec<u8>, option/set of a key, and vec/box/map/array-with-imported-const-length/result/"
+        "sender of struct-with-required / struct-without-required / enum definitions that are local to the target schema and "
+        "refer to each other by local names); every link is used in its own schema as map key / set element exactly when "
+        "c16gen.Env.is_key says it resolves to a key type, otherwise as field / option / vec / map value / array / box; "
+        "#[rust(impl_*)] options on structs/enums/newtypes wherever Env.std_traits says every field type has the trait, "
+        "including 2..3 level towers across schemas; recursion knots s::Node -> x::Wrap -> x::Inner -> s::Node with the "
+        "breaker on any subset of the three edges; ordinary structs/enums/services (inline types) over the cross-layer names. "
+        "compile_check.cross_schema_layer holds the measured counts per run; compile_check.impl_assertions counts the "
+        "compile-time assertions (src/expect.rs) that each generated type implements what the code generator derives for it "
+        "(key newtype: PartialEq/Eq/PartialOrd/Ord/Hash/PrimaryKeyTag; Default; impl_* options)")
     o.coverage["compile_check"] = {k: v for k, v in stats.items() if k not in ("evaluations", "distinct_nontrivial",
                                                                                 "samples", "input_distribution",
                                                                                 "monitor_classes", "monitor_failures",
